@@ -12,6 +12,7 @@ import (
 	"path/filepath"
 	"regexp"
 	"runtime"
+	"runtime/pprof"
 	"sort"
 	"strconv"
 	"strings"
@@ -45,9 +46,15 @@ func main() {
 		verbose  = flag.Bool("v", false, "verbose")
 		noEvid   = flag.Bool("noevidence", false, "do not write the evidence file")
 		replayF  = flag.String("replay", "", "replay one counterexample file natively and exit")
+		cpuProf  = flag.String("cpuprofile", "", "write a CPU profile")
 		updBase  = flag.Bool("update-baseline", false, "record the assertions reached per harness as the reachability baseline (vacuity guard)")
 	)
 	flag.Parse()
+	if *cpuProf != "" {
+		f, _ := os.Create(*cpuProf)
+		pprof.StartCPUProfile(f)
+		defer pprof.StopCPUProfile()
+	}
 	t0 := time.Now()
 	hdir := filepath.Join(*verif, "harness")
 	if *replayF != "" {
@@ -71,7 +78,7 @@ func main() {
 	}
 	switch *solverN {
 	case "z3":
-		cfg.SolverCmd = []string{"z3", "-in", "-t:8000"}
+		cfg.SolverCmd = []string{"z3", "-in", "-t:1500"}
 	case "z3-new":
 		cfg.SolverCmd = []string{"z3-new", "-in", "-t:60000"}
 	case "cvc5":
@@ -438,6 +445,7 @@ func main() {
 	}
 	fmt.Printf("%s %s: harnesses=%d paths=%d obligations=%d (unsat=%d sat=%d) queries=%d solver=%.1fs native-validated=%d wall=%.1fs exit=%d\n",
 		*prop, *tier, len(names), total.Paths, total.Obligations, total.Unsat, total.Sat, total.Queries, total.SolverTime.Seconds(), replayed+witnessOK, wall, exit)
+	pprof.StopCPUProfile()
 	os.Exit(exit)
 }
 
